@@ -139,8 +139,9 @@ def dump_resume(chk, plans, only_props):
         resume_jobs = []
         for n, p in enumerate(plans):
             a = by["A%d" % n]
-            report(chk, a, "C19", "run with dumping")
-            report(chk, by["N%d" % n], "C19", "run without dumping")
+            for pid_ in (sorted(only_props) if only_props else ["C19"]):
+                report(chk, a, pid_, "run with dumping (plan %d)" % n)
+                report(chk, by["N%d" % n], pid_, "run without dumping (plan %d)" % n)
             tr = a["trace"]
             k = 1
             while os.path.exists(tr[:-7] + ".dump%d.dat" % k):
@@ -246,3 +247,10 @@ def report(chk, r, pid, what):
     if v:
         chk.traces += 1
         chk.evaluations += v[0]
+        # the run that writes dumps (and the one that does not) must themselves satisfy the run-level clauses of the property
+        # in whose name they are made: a dump must not disturb the run that continues
+        shown = 0
+        for prop, line, clause in sorted(v[1], key=lambda x: x[1]):
+            if prop == pid and pid != "C19" and shown < 2:
+                shown += 1
+                chk.violation("dumprun:" + clause.split(":")[0], "%s, record %d: %s" % (what, line, clause), dict(job=r["job"]))
